@@ -197,6 +197,30 @@ def run_case(case, ctx):
         sc = max(float(numpy.max(numpy.abs(Tt))), 1e-300)
         rho0 = numpy.zeros((dim, dim), dtype=complex)
         rho0[1:, 1:] = build.random_state(rng, dim - 1, kind="mixed")
+        # dynamics generated by the two forms, before any conversion, for Hermitian states and for general operators (coherences,
+        # matrix units - what an evolution superoperator propagates): the generator is complex linear in both forms
+        with ctx.lib("TD propagation in operator form vs tensor form", mechanism=None):
+            with contextlib.redirect_stdout(io.StringIO()):
+                starts = [("hermitian state", rho0.copy())]
+                nh = numpy.zeros((dim, dim), dtype=complex)
+                nh[1, 0] = 1.0
+                starts.append(("coherence |e><g|", nh))
+                if dim > 2:
+                    mu = numpy.zeros((dim, dim), dtype=complex)
+                    mu[1, 2] = 1.0
+                    starts.append(("matrix unit |1><2|", mu))
+                gen_ = rng.normal(size=(dim, dim)) + 1j * rng.normal(size=(dim, dim))
+                starts.append(("general complex operator", gen_ / numpy.linalg.norm(gen_)))
+                pairs = []
+                for nm_, x0 in starts:
+                    ops_ = []
+                    for R_, h_ in ((Ro, Bo["hamR"]), (Rt, ham)):
+                        r_ = qr.ReducedDensityMatrix(dim=dim)
+                        r_.data = x0.copy()
+                        ops_.append(numpy.array(qm.ReducedDensityMatrixPropagator(t, h_, R_).propagate(r_).data))
+                    pairs.append((nm_, ops_[0], ops_[1]))
+        for nm_, a_, b_ in pairs:
+            ctx.check("propagate:operators==tensor", float(numpy.max(numpy.abs(a_ - b_))), 1e-10, dict(det, what="TD tensor, operator form vs tensor form", initial=nm_))
         with ctx.lib("convert_2_tensor of the TD operator form, then other bases", mechanism=None):
             with contextlib.redirect_stdout(io.StringIO()):
                 hamo = Bo["hamR"]
